@@ -1071,10 +1071,13 @@ func (p *Parser) parseTVFCallExpr(ids []*ast.Ident) *ast.TVFCallExpr {
 	p.expect("(")
 
 	var args []ast.TVFArg
+	// A named argument can start the list or follow a comma, but not directly follow a positional argument.
+	afterComma := true
 	if p.Token.Kind != ")" {
 		for !p.lookaheadNamedArg() {
 			args = append(args, p.parseTVFArg())
-			if p.Token.Kind != "," {
+			afterComma = p.Token.Kind == ","
+			if !afterComma {
 				break
 			}
 			p.nextToken()
@@ -1082,7 +1085,7 @@ func (p *Parser) parseTVFCallExpr(ids []*ast.Ident) *ast.TVFCallExpr {
 	}
 
 	var namedArgs []*ast.NamedArg
-	if p.lookaheadNamedArg() {
+	if afterComma && p.lookaheadNamedArg() {
 		namedArgs = parseCommaSeparatedList(p, p.parseNamedArg)
 	}
 
